@@ -310,7 +310,149 @@ def run(prog, ctx):
     sg = prog.func("Grid.GlobalGrid.set_grid")
     ctx.touch(sg)
     _check_global_set_grid(ctx, sg)
+    _check_tensor_request_order(prog, ctx)
+    _check_index_spaces(prog, ctx)
     ctx.floor("C02.D3", sum(1 for i in ctx.instances if i.rule == "C02.D3"), 6, "point/weight alignment instances")
+
+    # ------------------------------------------------------------------ D4
+    _check_closed_form_scheme(prog, ctx)
+
+
+def _enumerator_kind(t):
+    """'C' for row-major (last dimension fastest) tensor enumerations, 'xy' for numpy's default meshgrid order, None unknown."""
+    kinds = set()
+    for x in subterms(t):
+        if x[0] == "call" and x[1][0] == "n" and x[1][1] in ("get_cross_product", "get_cross_product_list", "get_cross_product_numpy_array"):
+            kinds.add("C")
+        if x[0] == "call" and x[1] in (("a", ("n", "itertools"), "product"), ("n", "product")):
+            kinds.add("C")
+        if x[0] == "call" and x[1] == ("a", ("n", "np"), "meshgrid"):
+            idx = dict(x[3]).get("indexing")
+            kinds.add("C" if idx == ("c", "'ij'") else "xy")
+    if len(kinds) == 1:
+        return kinds.pop()
+    return None if not kinds else "mixed"
+
+
+def _check_tensor_request_order(prog, ctx):
+    """interpolate_grid documents its result as ordered like the cross product of the 1-D coordinates (the order of
+    Grid.getPoints); the component request must enumerate the tensor grid in that same order."""
+    fi = prog.func(SC + ".interpolate_grid_component")
+    ctx.touch(fi)
+    tm = Terms(fi.node)
+    rets = R.return_paths(fi)[0]
+    ok = False
+    kind = None
+    for r in rets:
+        t = tm.term(r.ast.value)
+        if t[0] == "call" and t[1] == ("a", ("n", "self"), "interpolate_points") and t[2]:
+            kind = _enumerator_kind(t[2][0])
+            uses_param = any(x == ("n", fi.params[1]) for x in subterms(t[2][0]))
+            ok = kind == "C" and uses_param and t[2][1] == ("n", fi.params[2])
+    ctx.check(ok, "C02.D3", R.key_of(fi, "tensor-request-order"), fi.loc(),
+              "the tensor-grid request enumerates its points in cross-product (row-major) order, like Grid.getPoints",
+              "interpolate_grid_component enumerates the requested tensor grid in %s order: the values returned by interpolate_grid "
+              "are no longer ordered like the cross product of the 1-D coordinates" % (kind or "an unrecognised"))
+
+
+def _check_index_spaces(prog, ctx):
+    """In the 1-D grids `index + self.lowerBorder` is a position in the numbering WITH boundary points; it may only be related to
+    num_points_with_boundary, never to num_points (the count without boundary)."""
+    g1 = prog.cls("Grid.Grid1d")
+    n = 0
+    for ci in prog.all_subclasses(g1):
+        for fi in ci.methods.values():
+            for node in ast.walk(fi.node):
+                parts = []
+                if isinstance(node, ast.Compare) and len(node.ops) == 1:
+                    parts = [node.left, node.comparators[0]]
+                elif isinstance(node, ast.BinOp) and isinstance(node.op, (ast.Div, ast.FloorDiv, ast.Mod, ast.Sub)):
+                    parts = [node.left, node.right]
+                if len(parts) != 2:
+                    continue
+                def has_wb_pos(e):
+                    return any(isinstance(b, ast.BinOp) and isinstance(b.op, ast.Add) and
+                               any(R.self_attr(o, fi.self_name) == "lowerBorder" for o in (b.left, b.right)) for b in ast.walk(e))
+                def counts(e):
+                    return {R.self_attr(a, fi.self_name) for a in ast.walk(e) if isinstance(a, ast.Attribute)} & {"num_points", "num_points_with_boundary"}
+                for a, b in ((parts[0], parts[1]), (parts[1], parts[0])):
+                    if has_wb_pos(a) and counts(b):
+                        n += 1
+                        ctx.touch(fi)
+                        ok = counts(b) == {"num_points_with_boundary"}
+                        ctx.check(ok, "C02.D3", R.key_of(fi, "index-space#%d" % n), fi.loc(node),
+                                  "a with-boundary position is related to the with-boundary count",
+                                  "`%s` relates a position in the numbering with boundary points (index + lowerBorder) to num_points, the count "
+                                  "WITHOUT boundary points: off by the dropped boundary points when boundary=False" % src(node)[:120])
+    ctx.floor("C02.D3.index-space", n, 2, "with-boundary position expressions in the 1-D grids")
+
+
+def _check_closed_form_scheme(prog, ctx):
+    """D4: the closed-form (non-adaptive) scheme is a pure function of (dim, lmin, lmax): no instance state is read or written on
+    that branch, and every level vector is shifted by lmin - 1."""
+    fi = prog.func("combiScheme.CombiScheme.getCombiScheme")
+    ctx.touch(fi)
+    c = cfg_of(fi)
+    tm = Terms(fi.node, max_depth=0)
+    flag = ("a", ("n", fi.self_name), "initialized_adaptive")
+    tests = [n for n in c.nodes if n.kind == "test" and tm.term(n.ast) == flag]
+    if not tests:
+        raise AnalysisError("C02.D4: getCombiScheme no longer branches on self.initialized_adaptive")
+    tnode = tests[0]
+    # nodes executed only on the non-adaptive side: reachable when the True edge of the flag test is removed, minus those
+    # also reachable when the False edge is removed
+    def reach_without(label):
+        be = {(tnode.idx, s.idx, l) for (s, l) in tnode.succ if l is label}
+        return c.reachable(blocked_edges=be)
+    only_closed = reach_without(True) - reach_without(False)
+    bad_reads, bad_writes = [], []
+    for n in c.nodes:
+        if n.idx not in only_closed or n.ast is None:
+            continue
+        root = n.ast if n.kind != "for" else n.ast.iter
+        for x in ast.walk(root):
+            a = R.self_attr(x, fi.self_name)
+            if a is None:
+                continue
+            if isinstance(x.ctx, ast.Load) and a not in ("dim",):
+                par = getattr(x, "_parent", None)
+                if isinstance(par, ast.Call) and par.func is x:
+                    continue
+                bad_reads.append(a)
+        if n.kind == "stmt":
+            for s in R.attribute_stores(ast.Module(body=[n.ast], type_ignores=[])) if False else []:
+                pass
+    for s in R.self_stores(fi):
+        sn = c.node_of(s.stmt) or R.cfg_node(fi, s.stmt)
+        if sn is not None and sn.idx in only_closed:
+            bad_writes.append(s.attr)
+    ctx.check(not bad_reads and not bad_writes, "C02.D4", R.key_of(fi, "closed-form-stateless"), fi.loc(),
+              "the closed-form scheme reads only self.dim and writes no instance state",
+              "the non-adaptive branch of getCombiScheme keeps state on the instance (reads %s, writes %s): a later request with other "
+              "levels can be answered from an earlier one" % (sorted(set(bad_reads)), sorted(set(bad_writes))))
+    # level shift by lmin - 1 on every constructed grid of that branch
+    cons = [x for x in ast.walk(fi.node) if isinstance(x, ast.Call) and isinstance(x.func, ast.Name) and x.func.id == "ComponentGridInfo"]
+    shift_ok = False
+    for x in cons:
+        node = c.node_containing(x)
+        if node is None or node.idx not in only_closed:
+            continue
+        kws = {k.arg: k.value for k in x.keywords}
+        lv = kws.get("levelvector", x.args[0] if x.args else None)
+        t = Terms(fi.node, max_depth=0).term(lv) if lv is not None else ("?",)
+        lminp, lmaxp = fi.params[1], fi.params[2]
+        shift_ok = any(y == ("op", "Sub", (("n", lminp), ("c", "1"))) for y in subterms(t))
+    budget_ok = False
+    for x in [y for y in ast.walk(fi.node) if isinstance(y, ast.Call) and isinstance(y.func, ast.Attribute) and y.func.attr == "getGrids"]:
+        from ..absint import poly_of_term, Poly
+        t = R.resolve_locals(fi, Terms(fi.node, max_depth=0).term(x.args[1]), c.node_containing(x), Terms(fi.node, max_depth=0))
+        p = poly_of_term(t)
+        lm, lx = (((("n", fi.params[1]), 1),)), (((("n", fi.params[2]), 1),))
+        if p.terms.get(lx) == 1 and p.terms.get(lm) == -1:
+            budget_ok = True
+    ctx.check(shift_ok and budget_ok, "C02.D4", R.key_of(fi, "level-shift"), fi.loc(),
+              "level vectors are enumerated for lmax - lmin + 1 - q and shifted by lmin - 1",
+              "the closed-form scheme does not enumerate for lmax - lmin (+const) and shift every level vector by lmin - 1")
 
 
 def R_strip(t):
